@@ -36,6 +36,19 @@ def encode (w : Word) : Nat :=
 inductive Mode | W | R
 deriving DecidableEq, Repr
 
+/-- Memory order an atomic operation requests (atomic.h): relaxed, acquire, release, acq_rel. -/
+inductive Ord | rlx | acq | rel | ar
+deriving DecidableEq, Repr
+
+def Ord.isAcq : Ord → Bool | .acq | .ar => true | _ => false
+def Ord.isRel : Ord → Bool | .rel | .ar => true | _ => false
+
+/-- Vector clocks: one component per thread. -/
+abbrev VC := Tid → Nat
+def VC.bot : VC := fun _ => 0
+def VC.join (a b : VC) : VC := fun i => max (a i) (b i)
+def VC.le (a b : VC) : Prop := ∀ i, a i ≤ b i
+
 inductive Share | none | W | R
 deriving DecidableEq, Repr
 
@@ -76,8 +89,8 @@ inductive Ev
   | ret (t : Tid) (ok : Bool)            -- ok = result of a try-lock; true otherwise
   | ld (t : Tid) (v : Nat)               -- atomic load observed v
   | casFail (t : Tid) (exp obs : Nat)    -- failed CAS: observed obs ≠ exp
-  | cas (t : Tid) (exp new : Nat)        -- successful CAS
-  | st (t : Tid) (new : Nat)             -- plain (release) store
+  | cas (t : Tid) (exp new : Nat) (ord : Ord := .ar)   -- successful CAS with its declared order
+  | st (t : Tid) (new : Nat) (ord : Ord := .rel)       -- plain store with its declared order
   | annAcq (t : Tid) (l : Mode)          -- RWLOCK_TRYACQUIRE fired
   | annRel (t : Tid) (l : Mode)          -- RWLOCK_RELEASE fired
 deriving Repr
@@ -90,10 +103,15 @@ structure State where
   call : Tid → Option (Call × Share)   -- call in progress on this mutex (+ mode held at a wait call)
   held : Tid → Share             -- client-visible ghost: between acquire-return and release-call
   ann : Tid → Share              -- what nsync's own annotations claim
+  -- happens-before ghosts (property C03), driven only by the declared orders of the writes to the word:
+  vc : Tid → VC                  -- each thread's vector clock
+  relc : VC                      -- release clock of the word (C++20 release sequence headed by the last release)
+  released : VC                  -- join of the clocks of all threads at their release points so far
 
 def init : State :=
   { word := 0, w := none, rs := [], sp := none, call := fun _ => none,
-    held := fun _ => .none, ann := fun _ => .none }
+    held := fun _ => .none, ann := fun _ => .none,
+    vc := fun t => fun i => if i = t then 1 else 0, relc := VC.bot, released := VC.bot }
 
 /-- The share a thread owns in the word, from the ghosts. -/
 def shareOf (s : State) (t : Tid) : Share :=
@@ -115,8 +133,27 @@ def lockPart (s : State) (t : Tid) : LockDelta → Except String (Option Tid × 
   | .r2w => if t ∈ s.rs ∧ mayChangeShare s t then .ok (some t, s.rs.erase t) else .error "reader-to-writer conversion by a non-reader"
   | .w2r => if s.w = some t ∧ mayChangeShare s t then .ok (none, t :: s.rs) else .error "writer-to-reader conversion by a non-writer"
 
+/-- Which order a write with these deltas must at least request: taking a share or the spinlock is an
+    acquire, giving one up is a release (common.h "acquire CAS" / "release CAS" comments). -/
+def needsAcq (ld : LockDelta) (sd : SpinDelta) : Bool :=
+  (match ld with | .addW | .addR | .r2w => true | _ => false) || (match sd with | .set => true | _ => false)
+def needsRel (ld : LockDelta) (sd : SpinDelta) : Bool :=
+  (match ld with | .subW | .subR | .r2w => true | _ => false) || (match sd with | .clear => true | _ => false)
+/-- A write at which the client's critical section ends for good: the share is given up. -/
+def isReleasePoint : LockDelta → Bool | .subW | .subR => true | _ => false
+
+/-- Clock update of a write by `t` (C++20: an RMW continues the release sequence; a release RMW joins its
+    clock into it; a plain release store starts a new one; a relaxed plain store breaks it). -/
+def clocks (s : State) (t : Tid) (ord : Ord) (isRmw : Bool) (relPoint : Bool) : (Tid → VC) × VC × VC :=
+  let vt := if ord.isAcq && isRmw then VC.join (s.vc t) s.relc else s.vc t
+  let vt' : VC := fun i => if i = t then vt i + 1 else vt i       -- tick own component
+  let relc' := if isRmw then (if ord.isRel then VC.join s.relc vt else s.relc)
+               else (if ord.isRel then vt else VC.bot)
+  let released' := if relPoint then VC.join s.released vt else s.released
+  (setFn s.vc t vt', relc', released')
+
 /-- Effect of a legal write of `new` by `t` on the ghosts; error = illegal for this thread. -/
-def applyWrite (s : State) (t : Tid) (new : Nat) : Except String State :=
+def applyWrite (s : State) (t : Tid) (new : Nat) (ord : Ord) (isRmw : Bool) : Except String State :=
   let o := decode s.word
   let n := decode new
   match lockDelta o n with
@@ -125,20 +162,29 @@ def applyWrite (s : State) (t : Tid) (new : Nat) : Except String State :=
     match lockPart s t ld with
     | .error e => .error e
     | .ok (w', rs') =>
-      match spinDelta o n with
-      | .same => .ok { s with word := new, w := w', rs := rs' }
-      | .set => if s.sp = none then .ok { s with word := new, w := w', rs := rs', sp := some t } else .error "spinlock taken while held"
-      | .clear => if s.sp = some t then .ok { s with word := new, w := w', rs := rs', sp := none } else .error "spinlock released by a thread that does not hold it"
+      let sd := spinDelta o n
+      if needsAcq ld sd && !ord.isAcq then .error "a write that takes a share or the spinlock must be an acquire"
+      else if needsRel ld sd && !ord.isRel then .error "a write that gives up a share or the spinlock must be a release"
+      else
+      let (vc', relc', released') := clocks s t ord isRmw (isReleasePoint ld)
+      match sd with
+      | .same => .ok { s with word := new, w := w', rs := rs', vc := vc', relc := relc', released := released' }
+      | .set => if s.sp = none then .ok { s with word := new, w := w', rs := rs', sp := some t, vc := vc', relc := relc', released := released' } else .error "spinlock taken while held"
+      | .clear => if s.sp = some t then .ok { s with word := new, w := w', rs := rs', sp := none, vc := vc', relc := relc', released := released' } else .error "spinlock released by a thread that does not hold it"
 
 def step (s : State) : Ev → Except String State
   | .ld _ v => if v = s.word then .ok s else .error "load observed a value the model's word does not hold"
   | .casFail _ exp obs =>
       if obs = s.word ∧ exp ≠ obs then .ok s else .error "failed CAS inconsistent with the model's word"
-  | .cas t exp new =>
-      if exp = s.word then applyWrite s t new else .error "successful CAS whose expected value is not the model's word"
-  | .st t new =>
-      -- a plain store is sound only while the storing thread owns the spinlock
-      if s.sp = some t then applyWrite s t new else .error "plain store to the word by a thread that does not hold the spinlock"
+  | .cas t exp new ord =>
+      if exp = s.word then applyWrite s t new ord true else .error "successful CAS whose expected value is not the model's word"
+  | .st t new ord =>
+      -- a plain store is sound only while the storing thread owns the spinlock AND the writer bit (nobody
+      -- else can then write the word), and it must be a release store (a relaxed store would break the
+      -- release sequence that carries earlier critical sections to later acquirers)
+      if s.sp = some t ∧ s.w = some t then
+        if ord.isRel then applyWrite s t new ord false else .error "plain store to the word must be a release store"
+      else .error "plain store to the word by a thread that does not hold the spinlock and the writer bit"
   | .call t c =>
       match s.call t with
       | some _ => .error "nested call on the same mutex"
